@@ -10,7 +10,7 @@ PROPERTIES = {
               'configured rule with the option values (all 256 option paths). Proved per function by VCs generated from the real source; loops by '
               'inductive invariants (no bound).',
         note='regex and fnmatch engines are uninterpreted (the contracts still pin which string is matched against which pattern); '
-             'URLInfo.parse of stored URLs is assumed not to raise (table invariant: stored URLs are normalised); scripting hooks disconnected; the web processor's typestate (the request about to be sent is the one the filters approved last, ghost g_approved) is under contract in specs/webproc.py; at the FTP processor the parent-directory listing is under contract (specs/ftpproc.py) and is a recorded known finding',
+             'URLInfo.parse of stored URLs is assumed not to raise (table invariant: stored URLs are normalised); scripting hooks disconnected; the typestate of the web processor (the request about to be sent is the one the filters approved last, ghost g_approved) is under contract in specs/webproc.py; at the FTP processor the parent-directory listing is under contract (specs/ftpproc.py) and is a recorded known finding',
         not_decided=['FTPProcessorSession.process/_fetch/_add_listing_links bodies: only _fetch_parent_path is under contract'],
     ),
     'C18': dict(
